@@ -317,7 +317,14 @@ def run(ctx):
         gen_and_replay(ctx, acc, "atomic_n2_d6", gen_cfg(2, 1, 1, 1, 1, ("out",), 7, True))
         # 4 nodes, partially overlapping knowledge: every order and direction of one whole
         # exchange per pair (6 exchanges) - each history ends with the convergence assertion
-        gen_and_replay(ctx, acc, "atomic_n4_allpairs", gen_cfg(4, 1, 0, 0, 1, ("chain", "part"), 7, True, once=True))
+        gen_and_replay(ctx, acc, "atomic_n4_allpairs", gen_cfg(4, 1, 0, 0, 1, ("chain", "part"), 7, True, once=True, changes=0))
+        # member STATE: one change of any kind - incl. the owner turning Suspect / Dead / Left
+        # (MaxState = 3 = node.StateLeft) with a newer heartbeat than the copies held elsewhere -
+        # followed by every order and direction of one whole exchange per pair; the convergence
+        # oracle compares heartbeat AND state of every member in every store
+        gen_and_replay(ctx, acc, "atomic_n3_states", gen_cfg(3, 3, 0, 3, 1, ("lag", "skew"), 5, True, once=True, changes=1))
+        gen_and_replay(ctx, acc, "atomic_n2_states",
+                       gen_cfg(2, 3, 1, 3, 1, ("full", "lag", "out", "skew"), 5, True, once=True, changes=2))
         gen_and_replay(ctx, acc, "msg_n3_d5", gen_cfg(3, 1, 1, 1, 2, ("skew",), 6, False))
         gen_and_replay(ctx, acc, "msg_n3_d5_hub", gen_cfg(3, 1, 0, 0, 2, ("hub",), 6, False))
         gen_and_replay(ctx, acc, "msg_n2_d8", gen_cfg(2, 1, 0, 0, 2, ("skew", "out"), 9, False))
@@ -334,7 +341,10 @@ def run(ctx):
         gen_and_replay(ctx, acc, "atomic_n3_d4", gen_cfg(3, 1, 1, 1, 1, ALL_TOPOS, 5, True))
         gen_and_replay(ctx, acc, "atomic_n3_d5", gen_cfg(3, 1, 1, 0, 1, ("hub", "skew"), 6, True), keep=0.5)
         gen_and_replay(ctx, acc, "atomic_n2_d6", gen_cfg(2, 1, 1, 1, 1, ALL_TOPOS, 7, True))
-        gen_and_replay(ctx, acc, "atomic_n4_allpairs", gen_cfg(4, 1, 0, 0, 1, ("chain", "part"), 7, True, once=True))
+        gen_and_replay(ctx, acc, "atomic_n4_allpairs", gen_cfg(4, 1, 0, 0, 1, ("chain", "part"), 7, True, once=True, changes=0))
+        gen_and_replay(ctx, acc, "atomic_n3_states", gen_cfg(3, 3, 0, 3, 1, ("lag", "skew"), 6, True, once=True, changes=1))
+        gen_and_replay(ctx, acc, "atomic_n2_states",
+                       gen_cfg(2, 3, 1, 3, 1, ("full", "lag", "out", "skew"), 5, True, once=True, changes=2))
         gen_and_replay(ctx, acc, "msg_n3_d6", gen_cfg(3, 1, 1, 1, 2, ("skew",), 7, False))
         gen_and_replay(ctx, acc, "msg_n3_d6_hub", gen_cfg(3, 1, 0, 0, 2, ("hub",), 7, False), keep=0.5)
         gen_and_replay(ctx, acc, "msg_n2_d9", gen_cfg(2, 1, 0, 0, 2, ("skew", "out"), 10, False), keep=0.5)
@@ -400,7 +410,7 @@ def run(ctx):
     if not unknown:
         # vacuity guards: the mechanisms the property talks about were exercised
         need = ["Exchanges", "Ack2", "NoAck2", "Overlaps", "Drops", "Restarts", "Ticks", "States",
-                "ConvChecks", "ConvHeld", "Superseded", "BigVer"]
+                "ConvChecks", "ConvHeld", "Superseded", "BigVer", "StatesLeft"]
         missing = [k for k in need if not st.get(k)]
         if missing:
             ctx.finish("model_checking", cov, assumptions)
